@@ -362,7 +362,7 @@ def obligations(tier):
 
 # ------------------------------------------------------------------------- concrete delivery matrix (end-to-end witnesses of H-STAGE; NOT solver-decided)
 
-CHANNELS = ["nt/file", "nt/files", "nt/gz", "nt/xz", "nt/zip", "nt/zips", "turtle/zips", "tsv/raw", "tsv/file", "tsv/files", "tsv/gz", "ttl_iter/raw", "ttl_iter/file", "ttl_iter/files", "ttl_iter/gz",
+CHANNELS = ["nt/file", "nt/files", "nt/gz", "nt/xz", "nt/zip", "nt/zips", "nt/zipdir", "turtle/zips", "turtle/zipdir", "tsv/raw", "tsv/file", "tsv/files", "tsv/gz", "ttl_iter/raw", "ttl_iter/file", "ttl_iter/files", "ttl_iter/gz",
             "turtle/raw", "turtle/file", "turtle/files", "turtle/gz", "turtle/zip", "xml/raw", "xml/file", "xml/xz", "n3/raw", "n3/file", "json-ld/raw", "json-ld/file", "rdflib"]
 RDFLIB_REPARSED = ("turtle/", "xml/", "n3/")       # parsed by rdflib once per pass: see finding DELIVERY-rdflib-reparse-bnode-instances
 
@@ -420,11 +420,12 @@ class Delivered:
             return dict(graph_file_input=write("g.%s.gz" % ext, render(self.triples), gzip.open), input_format=const, compression_mode=GZ)
         if how == "xz":
             return dict(graph_file_input=write("g.%s.xz" % ext, render(self.triples), lzma.open), input_format=const, compression_mode=XZ)
-        if how == "zip":
+        if how in ("zip", "zipdir"):       # zipdir: the members live in a folder of the archive (what `zip -r g.zip data/` produces)
             path = os.path.join(self.dir, "g.zip")
+            folder = "data/part/" if how == "zipdir" else ""
             with zipfile.ZipFile(path, "w") as z:
-                z.writestr("a." + ext, render(parts[0]))
-                z.writestr("b." + ext, render(parts[1]))
+                z.writestr(folder + "a." + ext, render(parts[0]))
+                z.writestr(folder + "b." + ext, render(parts[1]))
             return dict(graph_file_input=path, input_format=const, compression_mode=ZIP)
         if how == "zips":      # several archives, one member each
             paths = []
